@@ -58,7 +58,7 @@ theorem tie_cmdIsValidVersion_new (today : Date) (pat old new : Str) (unique : B
     (hp : isNewPattern pat = true) (ce : CmdEnv) (s : CState) :
     GenL.isValidVersion today pat old new unique ce s = gateCmd today pat old new unique ce s := by
   unfold GenL.isValidVersion gateCmd gate uniqueCmd pepLe
-  simp only [TieL.isNewPattern_gen', TieL.isNewPattern_gen'c, hp, if_true, pyV2ParseVersionInfo, tie_parseVersionTags_new]
+  simp only [TieL.isNewPattern_gen', TieL.isNewPattern_gen'c, TieL.isNewPattern_gen'o, TieL.isNewPattern_gen'oc, TieL.isOldPattern_gen, TieL.isOldPattern_genc, hp, if_true, Bool.not_true, Bool.not_false, Bool.false_eq_true, if_false, pyV2ParseVersionInfo, tie_parseVersionTags_new]
   try simp only [verLt_eq_not_verLe, Bool.not_not]
   cases hpv : parseVersionInfo new pat today with
   | error e => cases e <;> cmd_simp [liftV2, CStop.isA, Exc.isPatternError]
@@ -79,7 +79,7 @@ theorem tie_cmdIsValidVersion_legacy (today : Date) (pat old new : Str) (unique 
     (hp : isNewPattern pat = false) (ce : CmdEnv) (s : CState) :
     GenL.isValidVersion today pat old new unique ce s = v1GateCmd pat old new unique ce s := by
   unfold GenL.isValidVersion v1GateCmd v1Gate uniqueCmd pepLe
-  simp only [TieL.isNewPattern_gen', TieL.isNewPattern_gen'c, hp, Bool.false_eq_true, if_false, pyV1ParseVersionInfo, tie_parseVersionTags_legacy]
+  simp only [TieL.isNewPattern_gen', TieL.isNewPattern_gen'c, TieL.isNewPattern_gen'o, TieL.isNewPattern_gen'oc, TieL.isOldPattern_gen, TieL.isOldPattern_genc, hp, Bool.false_eq_true, if_false, Bool.not_true, Bool.not_false, if_true, pyV1ParseVersionInfo, tie_parseVersionTags_legacy]
   try simp only [verLt_eq_not_verLe, Bool.not_not]
   cases hpv : v1ParseVersionInfo new pat with
   | error e => cases e <;> cmd_simp [liftV1, CStop.isA, Exc.isPatternError]
